@@ -46,6 +46,15 @@ M = {
  'r2_interp_same_dt_returns_argument': [('eqsig/fns/time_step.py', "    acc_interp, dt_interp = interp_array_to_approx_dt(asig.values, asig.dt, target_dt=target_dt, even=even)\n", "    if target_dt == asig.dt:\n        return asig\n    acc_interp, dt_interp = interp_array_to_approx_dt(asig.values, asig.dt, target_dt=target_dt, even=even)\n")],
  # object-level twin (deprecated generate_cumulative_stats attributes) must agree with the functions
  'r2_stats_cav_attribute': [('eqsig/single.py', "        self.cav = self.cav_series[-1]", "        self.cav = self.cav_series[-2] if len(self.cav_series) > 1 else self.cav_series[-1]")],
+
+ # ---- wave 5: the caller's dt, steps that need more than six decimals, extreme scales
+ 'r3_signal_rounds_dt': [('eqsig/single.py', "        self._dt = dt\n        self._values = np.array(values)\n", "        self._dt = round(float(dt), 6)\n        self._values = np.array(values)\n")],
+ # extreme-scale records (|a| < 1e-162 or > 1e154): magnitude through a square in a linear measure
+ 'r3_cav_abs_via_square': [("    abs_acc = np.abs(acc_sig.values)\n", "    abs_acc = np.sqrt(acc_sig.values ** 2)\n")],
+ 'r3_absvel_abs_via_product': [("    abs_vel = abs(asig.velocity)\n", "    abs_vel = np.sqrt(asig.velocity * asig.velocity)\n")],
+ 'r3_cavdp_abs_via_square': [("        abs_acc_interval = abs(acc_interval)\n", "        abs_acc_interval = np.sqrt(acc_interval ** 2)\n")],
+ # amplitudes 1e-130..1e130 with the energy-type measures
+ 'r3_isv_sanity_clip': [("    return cumulative_trapezoid(acc_sig.velocity ** 2, dx=acc_sig.dt, initial=0)", "    return cumulative_trapezoid(np.minimum(acc_sig.velocity ** 2, 1e60), dx=acc_sig.dt, initial=0)")],
  # behaviour-preserving controls
  'ctl_cumsum_panels': [("    return cumulative_trapezoid(abs_acc, dx=acc_sig.dt, initial=0)", "    return np.concatenate([[0.0], np.cumsum(0.5 * acc_sig.dt * (abs_acc[1:] + abs_acc[:-1]))])")],
  'ctl_arias_cumsum_panels': [("np.pi / (2 * 9.81) * cumulative_trapezoid(acc ** 2, dx=dt, initial=0)", "np.pi / 19.62 * np.concatenate([[0.0], np.cumsum(0.5 * dt * (acc[1:] ** 2 + acc[:-1] ** 2))])")],
